@@ -218,6 +218,19 @@ def run(ctx):
                key="R13.10:%s" % mac10,
                what="%s emits its ports in the order %s: Ports::apropos finds `%s` first, which carries no metadata - a dependency declared on the sub-tree (rEnabledBy, rDepends) is never found and its lines are dispatched in file order" % (mac10, names10, names10[0]))
 
+    # ---- R13.11: the lookup scan_deps reads a level's metadata with
+    ctx.rule("R13.11", "APROPOS-EXACT: Ports::apropos, with which scan_deps looks up the port of a level, evaluated as a whole function on ten small port tables, answers for a path that names a port exactly (up to the port's '/' or ':types') "
+             "with that port wherever it stands in the table - also behind a sibling whose name merely begins like it (`filter_on` declared in front of `filter/`) - and with nothing for a name the table does not hold")
+    from ..rules import aproposeval as AE
+    up11 = ctx.ast("ports.cpp")
+    try:
+        bad11, n11 = AE.check(up11)
+    except FD.Unknown as e:
+        raise AnalysisBroken("R13.11: Ports::apropos is not evaluable: %s" % e)
+    ctx.ob("R13.11", "Ports::apropos on port tables", not bad11, site=A.where([f_ for q_, fl_ in up11.functions.items() if q_.endswith("Ports::apropos") for f_ in fl_][0]),
+           detail={"tables": n11, "mismatches": bad11[:4]}, key="R13.11:apropos",
+           what="Ports::apropos answers with another port than the one the path names: %s - the dependency declared on that port is read from (or missed on) the wrong port, and its lines are dispatched in file order" % [(b_["table"], b_["path"], b_["answers_with"]) for b_ in bad11[:3]])
+
     # ---- R13.9: the topological sort itself, interpreted on small graphs
     ctx.rule("R13.9", "KAHN-EVALUATED: the topological sort of dispatch_printed_messages (in-degree table, queue of ready messages, release loop), interpreted on nine dependency graphs - among them a message reached over two edges "
              "that follow each other in the vector, a dependee listed twice, a diamond - puts every message exactly once into the order and in front of everything that waits for it")
